@@ -161,7 +161,7 @@ func execC16(ctx *Ctx, in *Input) *Result {
 	seenOut := map[string]bool{}
 	for si, s := range in.Specs {
 		for vi, v := range variants {
-			name := fmt.Sprintf("p%d_%d_%d", pbCounter, si, vi)
+			name := fmt.Sprintf("p%d_%d_%d", in.Index, si, vi)
 			var layR *rng.R
 			if in.LayoutSeed != 0 {
 				layR = rng.New(in.LayoutSeed+uint64(si), "layout")
